@@ -36,7 +36,118 @@ func arrayLen(t types.Type) (int64, bool) {
 }
 
 // counterBound: v is a loop counter phi(c0, v+step) guarded by a header comparison against a constant or len(array).
+// counterBound bounds an index expression: a loop counter, or an affine combination of loop counters and constants.
 func counterBound(v ssa.Value) (lo, hi int64, ok bool) {
+	return affineBound(v, 0)
+}
+
+func affineBound(v ssa.Value, depth int) (lo, hi int64, ok bool) {
+	if depth > 6 {
+		return 0, 0, false
+	}
+	switch x := v.(type) {
+	case *ssa.Const:
+		if x.Value == nil {
+			return 0, 0, false
+		}
+		return x.Int64(), x.Int64(), true
+	case *ssa.Convert:
+		return affineBound(x.X, depth+1)
+	case *ssa.Parameter:
+		// an integer parameter of an unexported function: the union over all its call sites
+		if arg, bound := paramBinding[x]; bound {
+			return affineBound(arg, depth+1)
+		}
+		fn := x.Parent()
+		if fn == nil || token.IsExported(fn.Name()) || fn.Signature.Recv() != nil || callSiteIndex == nil {
+			return 0, 0, false
+		}
+		idx := -1
+		for i, p := range fn.Params {
+			if p == x {
+				idx = i
+			}
+		}
+		sites := callSiteIndex[fn]
+		if idx < 0 || len(sites) == 0 {
+			return 0, 0, false
+		}
+		first := true
+		for _, c := range sites {
+			if idx >= len(c.Common().Args) {
+				return 0, 0, false
+			}
+			l, h, ok := affineBound(c.Common().Args[idx], depth+1)
+			if !ok {
+				return 0, 0, false
+			}
+			if first || l < lo {
+				lo = l
+			}
+			if first || h > hi {
+				hi = h
+			}
+			first = false
+		}
+		return lo, hi, true
+	case *ssa.Phi:
+		if l, h, ok := phiCounterBound(x); ok {
+			return l, h, true
+		}
+		// a counter that starts at a guarded value and steps down to a constant: for i := n; i >= c; i--
+		if l, h, ok := downCounterBound(x); ok {
+			return l, h, true
+		}
+		return 0, 0, false
+	case *ssa.BinOp:
+		// the range-loop index phi+1 is bounded through its own comparison
+		if n, isRange := rangeIndex(x); isRange {
+			return 0, n - 1, true
+		}
+		al, ah, ok1 := affineBound(x.X, depth+1)
+		bl, bh, ok2 := affineBound(x.Y, depth+1)
+		if !ok1 || !ok2 {
+			return 0, 0, false
+		}
+		const big = int64(1) << 40
+		if al < -big || ah > big || bl < -big || bh > big {
+			return 0, 0, false
+		}
+		switch x.Op {
+		case token.ADD:
+			return al + bl, ah + bh, true
+		case token.SUB:
+			return al - bh, ah - bl, true
+		case token.MUL:
+			c := []int64{al * bl, al * bh, ah * bl, ah * bh}
+			lo, hi = c[0], c[0]
+			for _, y := range c[1:] {
+				if y < lo {
+					lo = y
+				}
+				if y > hi {
+					hi = y
+				}
+			}
+			return lo, hi, true
+		case token.SHL:
+			if bl == bh && bl >= 0 && bl < 20 && al >= 0 {
+				return al << uint(bl), ah << uint(bl), true
+			}
+		case token.QUO:
+			if bl == bh && bl > 0 && al >= 0 {
+				return al / bl, ah / bl, true
+			}
+		case token.REM:
+			if bl == bh && bl > 0 && al >= 0 {
+				return 0, bl - 1, true
+			}
+		}
+	}
+	return 0, 0, false
+}
+
+func phiCounterBound(v ssa.Value) (lo, hi int64, ok bool) {
 	ph, isPhi := v.(*ssa.Phi)
 	if !isPhi || len(ph.Edges) != 2 {
 		return 0, 0, false
@@ -71,19 +182,29 @@ func counterBound(v ssa.Value) (lo, hi int64, ok bool) {
 			if !isB {
 				continue
 			}
-			c, isC := bo.Y.(*ssa.Const)
-			if !isC || bo.X != x {
+			if bo.X != x {
+				continue
+			}
+			var cLo, cHi int64
+			if c, isC := bo.Y.(*ssa.Const); isC && c.Value != nil {
+				cLo, cHi = c.Int64(), c.Int64()
+			} else if _, isParam := bo.Y.(*ssa.Parameter); isParam {
+				l, h, okB := affineBound(bo.Y, 1)
+				if !okB {
+					continue
+				}
+				cLo, cHi = l, h
+			} else {
 				continue
 			}
 			switch bo.Op {
 			case token.LSS:
-				bound, found = c.Int64()-1-adj+adj, true
-				bound = c.Int64() - 1
+				bound, found = cHi-1, true
 			case token.LEQ:
-				bound, found = c.Int64(), true
+				bound, found = cHi, true
 			case token.GEQ, token.GTR:
 				if step < 0 {
-					bound, found = c.Int64(), true
+					bound, found = cLo, true
 				}
 			}
 		}
@@ -104,10 +225,17 @@ func counterBound(v ssa.Value) (lo, hi int64, ok bool) {
 	if !found {
 		return 0, 0, false
 	}
+	// the counter only takes the values init, init+step, ...: tighten the far end to the last value actually reached
 	if step > 0 {
-		return init, bound, true
+		if bound < init {
+			return init, init, true
+		}
+		return init, init + ((bound-init)/step)*step, true
 	}
-	return bound, init, true
+	if bound > init {
+		return init, init, true
+	}
+	return init - ((init-bound)/(-step))*(-step), init, true
 }
 
 // constSet computes the finite set of values of v when it is built from constants, acyclic phis and +/- constants.
@@ -219,6 +347,7 @@ func ruleIndexSites(r *rep.Report, p *load.Program, rl *roles.Roles) {
 	cfg := p.Cfg.Name
 	roots := exportedAPI(p)
 	mod, _, _ := ssau.Reachable(roots...)
+	buildCallSiteIndex(p)
 	var sites []indexSite
 	nconst := 0
 	for _, fn := range mod {
@@ -235,6 +364,36 @@ func ruleIndexSites(r *rep.Report, p *load.Program, rl *roles.Roles) {
 				s := indexSite{fn: fn, in: in, base: ia.X.Name(), idx: ia.Index.Name()}
 				if sliceRange(ia) {
 					s.how = "range loop over the indexed slice itself (idx < len(slice))"
+				}
+				if _, isSl := ia.X.Type().Underlying().(*types.Slice); isSl && s.how == "" {
+					if lo, hi, ok := counterBound(ia.Index); ok && lo >= 0 {
+						if ln, ok := sliceLenLower(ia.X, 0); ok && hi < ln {
+							s.how = fmt.Sprintf("counter in [%d,%d] below the slice's length (at least %d at every call site)", lo, hi, ln)
+						}
+					}
+					// an unexported helper: judge it once per call site with its parameters bound to that site's arguments
+					if s.how == "" && !token.IsExported(fn.Name()) && fn.Signature.Recv() == nil && len(callSiteIndex[fn]) > 0 {
+						all := true
+						for _, c := range callSiteIndex[fn] {
+							for i, prm := range fn.Params {
+								if i < len(c.Common().Args) {
+									paramBinding[prm] = c.Common().Args[i]
+								}
+							}
+							lo, hi, ok1 := counterBound(ia.Index)
+							ln, ok2 := sliceLenLower(ia.X, 0)
+							for _, prm := range fn.Params {
+								delete(paramBinding, prm)
+							}
+							if !ok1 || !ok2 || lo < 0 || hi >= ln {
+								all = false
+								break
+							}
+						}
+						if all {
+							s.how = fmt.Sprintf("at each of the %d call sites the counter stays below the length of the slice passed", len(callSiteIndex[fn]))
+						}
+					}
 				}
 				if n, isArr := arrayLen(ia.X.Type()); isArr {
 					// peel conversions
@@ -518,7 +677,7 @@ func ruleZeroScanGuard(r *rep.Report, p *load.Program, rl *roles.Roles) {
 				continue
 			}
 			cmp, ok := ifi.Cond.(*ssa.BinOp)
-			if !ok || cmp.Op != token.EQL {
+			if !ok || (cmp.Op != token.EQL && cmp.Op != token.NEQ) {
 				continue
 			}
 			if z, ok := constIntV(cmp.Y); !ok || z != 0 {
@@ -536,18 +695,27 @@ func ruleZeroScanGuard(r *rep.Report, p *load.Program, rl *roles.Roles) {
 			if !ok {
 				continue
 			}
-			// the index must be decremented on the loop's own back edge (true branch returns to this block)
+			// the successor taken while the limb is zero must lead back to the phi's block with the index decremented
+			zeroSucc := blk.Succs[0]
+			if cmp.Op == token.NEQ {
+				zeroSucc = blk.Succs[1]
+			}
 			back := false
-			for _, e := range ph.Edges {
-				if bo, ok := e.(*ssa.BinOp); ok && bo.Op == token.SUB && bo.X == ph && bo.Block() == blk.Succs[0] {
-					for _, s := range bo.Block().Succs {
-						if s == blk {
-							back = true
-						}
-					}
+			for ei, e := range ph.Edges {
+				bo, ok := e.(*ssa.BinOp)
+				if !ok || bo.Op != token.SUB || bo.X != ph {
+					continue
+				}
+				pred := ph.Block().Preds[ei]
+				if zeroSucc == bo.Block() || zeroSucc == pred || zeroSucc.Dominates(pred) {
+					back = true
 				}
 			}
 			if !back || !strings.HasSuffix(ia.X.Type().String(), "modm.Bignum256") {
+				continue
+			}
+			// only scans for a non-zero limb (the loop is left on the non-zero side without touching the limb further)
+			if !scanOnly(blk, ph) {
 				continue
 			}
 			n++
@@ -573,7 +741,7 @@ func ruleZeroScanGuard(r *rep.Report, p *load.Program, rl *roles.Roles) {
 				if neg {
 					nz = g.Succs[0]
 				}
-				if len(nz.Preds) == 1 && nz.Dominates(blk) {
+				if len(nz.Preds) == 1 && nz.Dominates(ph.Block()) {
 					guarded = true
 				}
 			}
@@ -590,4 +758,247 @@ func constIntV(v ssa.Value) (int64, bool) {
 		return 0, false
 	}
 	return c.Int64(), true
+}
+
+// scanOnly: the test block does nothing but load the limb and branch (so the loop is a pure scan for a non-zero limb,
+// not the ladder, which also tests limbs of the same scalar).
+func scanOnly(blk *ssa.BasicBlock, ph *ssa.Phi) bool {
+	for _, in := range blk.Instrs {
+		switch in.(type) {
+		case *ssa.Phi, *ssa.IndexAddr, *ssa.UnOp, *ssa.BinOp, *ssa.If, *ssa.DebugRef:
+		default:
+			return false
+		}
+	}
+	// the loop containing the test consists of at most three blocks (header/test, decrement) and calls nothing
+	loopBlk := ph.Block()
+	seen := map[*ssa.BasicBlock]bool{}
+	var walk func(b *ssa.BasicBlock) bool
+	walk = func(b *ssa.BasicBlock) bool {
+		if seen[b] {
+			return true
+		}
+		seen[b] = true
+		if len(seen) > 4 {
+			return false
+		}
+		for _, in := range b.Instrs {
+			if _, isCall := in.(*ssa.Call); isCall {
+				return false
+			}
+			if _, isStore := in.(*ssa.Store); isStore {
+				return false
+			}
+		}
+		if b == blk {
+			return true
+		}
+		for _, s := range b.Succs {
+			if !walk(s) {
+				return false
+			}
+		}
+		return true
+	}
+	return walk(loopBlk)
+}
+
+// guardedUpper: an upper bound of v established by a comparison with a constant on every way into block at.
+func guardedUpper(v ssa.Value, at *ssa.BasicBlock) (int64, bool) {
+	best, found := int64(0), false
+	for _, b := range at.Parent().Blocks {
+		ifi, ok := b.Instrs[len(b.Instrs)-1].(*ssa.If)
+		if !ok {
+			continue
+		}
+		cmp, ok := ifi.Cond.(*ssa.BinOp)
+		if !ok || cmp.X != v {
+			continue
+		}
+		c, ok := cmp.Y.(*ssa.Const)
+		if !ok || c.Value == nil {
+			continue
+		}
+		edge := func(s *ssa.BasicBlock) bool { return len(s.Preds) == 1 && s.Dominates(at) }
+		var ub int64
+		okB := false
+		switch cmp.Op {
+		case token.LSS:
+			if edge(b.Succs[0]) {
+				ub, okB = c.Int64()-1, true
+			}
+		case token.LEQ:
+			if edge(b.Succs[0]) {
+				ub, okB = c.Int64(), true
+			}
+		case token.GEQ:
+			if edge(b.Succs[1]) {
+				ub, okB = c.Int64()-1, true
+			}
+		case token.GTR:
+			if edge(b.Succs[1]) {
+				ub, okB = c.Int64(), true
+			}
+		}
+		if okB && (!found || ub < best) {
+			best, found = ub, true
+		}
+	}
+	return best, found
+}
+
+// downCounterBound: phi(init, phi-1) kept >= c by the loop test, with init bounded above by a dominating guard.
+func downCounterBound(ph *ssa.Phi) (lo, hi int64, ok bool) {
+	if len(ph.Edges) != 2 {
+		return 0, 0, false
+	}
+	var init ssa.Value
+	step := false
+	for _, e := range ph.Edges {
+		if bo, isB := e.(*ssa.BinOp); isB && bo.Op == token.SUB && bo.X == ph {
+			if c, isC := bo.Y.(*ssa.Const); isC && c.Value != nil && c.Int64() == 1 {
+				step = true
+				continue
+			}
+		}
+		init = e
+	}
+	if !step || init == nil {
+		return 0, 0, false
+	}
+	refs := ph.Referrers()
+	if refs == nil {
+		return 0, 0, false
+	}
+	lower, found := int64(0), false
+	for _, r := range *refs {
+		bo, isB := r.(*ssa.BinOp)
+		if !isB || bo.X != ssa.Value(ph) || bo.Block() != ph.Block() {
+			continue
+		}
+		c, isC := bo.Y.(*ssa.Const)
+		if !isC || c.Value == nil {
+			continue
+		}
+		// the comparison must be the loop test of the phi's block with the body on its true side
+		ifi, isIf := ph.Block().Instrs[len(ph.Block().Instrs)-1].(*ssa.If)
+		if !isIf || ifi.Cond != ssa.Value(bo) {
+			continue
+		}
+		switch bo.Op {
+		case token.GEQ:
+			lower, found = c.Int64(), true
+		case token.GTR:
+			lower, found = c.Int64()+1, true
+		}
+	}
+	if !found {
+		return 0, 0, false
+	}
+	if c, isC := init.(*ssa.Const); isC && c.Value != nil {
+		return lower, c.Int64(), true
+	}
+	ub, okU := guardedUpper(init, ph.Block())
+	if !okU {
+		return 0, 0, false
+	}
+	return lower, ub, true
+}
+
+// callSiteIndex: static call sites per function of the program under analysis (set by ruleIndexSites).
+var callSiteIndex map[*ssa.Function][]ssa.CallInstruction
+
+// paramBinding: while a helper is judged for one particular call site, its parameters stand for that site's arguments.
+var paramBinding = map[*ssa.Parameter]ssa.Value{}
+
+func buildCallSiteIndex(p *load.Program) {
+	callSiteIndex = map[*ssa.Function][]ssa.CallInstruction{}
+	for _, fn := range ssau.AllFuncs(p) {
+		for _, b := range fn.Blocks {
+			for _, in := range b.Instrs {
+				if c, ok := in.(ssa.CallInstruction); ok {
+					if cal := c.Common().StaticCallee(); cal != nil {
+						callSiteIndex[cal] = append(callSiteIndex[cal], c)
+					}
+				}
+			}
+		}
+	}
+}
+
+// sliceLenLower: a lower bound of len(v) for a slice value.
+func sliceLenLower(v ssa.Value, depth int) (int64, bool) {
+	if depth > 5 {
+		return 0, false
+	}
+	switch x := v.(type) {
+	case *ssa.Slice:
+		var capN int64 = -1
+		if pt, ok := x.X.Type().Underlying().(*types.Pointer); ok {
+			if at, ok := pt.Elem().Underlying().(*types.Array); ok {
+				capN = at.Len()
+			}
+		}
+		base := capN
+		if capN < 0 {
+			b, ok := sliceLenLower(x.X, depth+1)
+			if !ok {
+				return 0, false
+			}
+			base = b
+		}
+		hiLo := base
+		if x.High != nil {
+			l, _, ok := affineBound(x.High, depth+1)
+			if !ok {
+				return 0, false
+			}
+			hiLo = l
+		}
+		var lowHi int64
+		if x.Low != nil {
+			_, h, ok := affineBound(x.Low, depth+1)
+			if !ok {
+				return 0, false
+			}
+			lowHi = h
+		}
+		if hiLo-lowHi < 0 {
+			return 0, false
+		}
+		return hiLo - lowHi, true
+	case *ssa.MakeSlice:
+		l, _, ok := affineBound(x.Len, depth+1)
+		return l, ok
+	case *ssa.Parameter:
+		if arg, bound := paramBinding[x]; bound {
+			return sliceLenLower(arg, depth+1)
+		}
+		fn := x.Parent()
+		if fn == nil || token.IsExported(fn.Name()) || fn.Signature.Recv() != nil || callSiteIndex == nil {
+			return 0, false
+		}
+		idx := -1
+		for i, p := range fn.Params {
+			if p == x {
+				idx = i
+			}
+		}
+		sites := callSiteIndex[fn]
+		if idx < 0 || len(sites) == 0 {
+			return 0, false
+		}
+		best := int64(-1)
+		for _, c := range sites {
+			l, ok := sliceLenLower(c.Common().Args[idx], depth+1)
+			if !ok {
+				return 0, false
+			}
+			if best < 0 || l < best {
+				best = l
+			}
+		}
+		return best, best >= 0
+	}
+	return 0, false
 }
